@@ -32,14 +32,15 @@ FIELD_MODES = {
     "with": ["mssql"], "clustered_primary_key": ["mssql"], "on": ["mssql"], "textimage_on": ["mssql"], "period_for_system_time": ["mssql"],
     "property_key": ["databricks"], "organize_by": ["ibm_db2"], "index_in": ["ibm_db2"], "inherits": ["postgres"],
     "is_global": ["oracle"], "organization_index": ["oracle"], "storage": ["oracle"],
-    "skewed_by": H, "into_buckets": H, "clustered_on": H, "escaped_by": ["athena"],
+    # fields declared on the HQL class itself carry output_modes ["hql"] only; the Athena subclass inherits them filtered out
+    "skewed_by": ["hql"], "into_buckets": ["hql"], "clustered_on": ["hql"], "escaped_by": ["athena"],
     "primary_key_enforced": ["snowflake"], "clone": ["snowflake"], "with_tag": ["snowflake"],
     "temp": ["hql", "redshift", "oracle", "athena"], "tblproperties": ["spark_sql", "hql", "redshift", "athena"],
     "stored_as": ["spark_sql", "hql", "databricks", "redshift", "athena"], "row_format": ["spark_sql", "hql", "databricks", "redshift", "athena"],
     "location": ["hql", "spark_sql", "snowflake", "databricks"], "fields_terminated_by": ["hql", "databricks", "athena"],
     "lines_terminated_by": ["hql", "databricks", "athena"], "map_keys_terminated_by": ["hql", "databricks", "athena"],
     "collection_items_terminated_by": ["hql", "databricks", "athena"], "clustered_by": ["hql", "spark_sql"],
-    "options": ["bigquery", "spark_sql"], "transient": ["hql", "databricks", "athena"], "external": ["hql", "snowflake", "athena"],
+    "options": ["bigquery", "spark_sql"], "transient": ["hql", "databricks"], "external": ["hql", "snowflake", "athena"],
     "cluster_by": ["bigquery", "snowflake"],
 }
 
@@ -135,7 +136,14 @@ def evaluate(case):
     ctor = {"normalize_names": case["nn"]}
     base = run_ddl(p["ddl"], ctor, {"output_mode": "sql", "group_by_type": case["group"]})
     D = []
+    W = set()
     n_ent = 0
+    if base[0] == "ok":
+        for eb in flat(base[1], case["group"]):
+            if is_table(eb):
+                extra = [k for k in eb if k not in COMMON_T]
+                if extra:
+                    D.append(diff("mode sql table %s top-level keys" % eb.get("table_name"), "undocumented-top-level-field", [], extra))
     for m in MODES[:-1]:
         r = run_ddl(p["ddl"], ctor, {"output_mode": m, "group_by_type": case["group"]})
         if base[0] == "ok" and r[0] != "ok":
@@ -162,6 +170,7 @@ def evaluate(case):
                     ptr = first_diff_path(vb, vr)
                     D.append(diff("mode %s table %s common fields at %s" % (m, eb.get("table_name"), ptr), "common-fields-differ", short(vb, 300), short(vr, 300)))
                     break
+                W.update("%s@%s" % (k, m) for k in er if k in FIELD_MODES)
                 extra = [k for k in er if k not in COMMON_T and k != "dataset" and not (k in FIELD_MODES and m in FIELD_MODES[k])]
                 if extra:
                     D.append(diff("mode %s table %s top-level keys" % (m, eb.get("table_name")), "undocumented-top-level-field", [], extra))
@@ -176,7 +185,23 @@ def evaluate(case):
                 if ren(eb) != ren(er):
                     D.append(diff("mode %s entity %d" % (m, n), "non-table-entity-differs", short(eb, 200), short(er, 200)))
                     break
-    return {"diffs": D[:6], "nontrivial": base[0] == "ok" and n_ent > 0, "outcome": "%s:%d" % (base[0], n_ent), "extra_evaluations": len(MODES) - 1}
+    return {"diffs": D[:6], "nontrivial": base[0] == "ok" and n_ent > 0, "outcome": "%s:%d" % (base[0], n_ent), "extra_evaluations": len(MODES) - 1,
+            "witnessed": sorted(W)}
+
+
+def extra_coverage(tier, cases, results):
+    seen = set()
+    for r in results:
+        seen.update(r.get("witnessed", []))
+    allp = {"%s@%s" % (k, m) for k, ms in FIELD_MODES.items() for m in ms}
+    return {"catalogue_pairs": len(allp), "catalogue_pairs_witnessed_at_top_level": len(allp & seen),
+            "catalogue_pairs_never_witnessed": sorted(allp - seen)[:20]}
+
+
+def vacuity(tier, cases, results, cov):
+    if cov.get("catalogue_pairs_witnessed_at_top_level", 0) < 0.8 * cov.get("catalogue_pairs", 1):
+        return "fewer than 80%% of the catalogued (field, mode) pairs are produced by any input: %s" % cov.get("catalogue_pairs_never_witnessed")
+    return None
 
 
 def describe(case):
